@@ -933,3 +933,153 @@ class Nesting(Family):
 
     def bucket(self, c):
         return 'len%d' % len(c['hist'])
+
+
+# ------------------------------------------------------------------ arbitrary bytes (C08)
+FUZZ_TOKENS = [b'0', b'-1', b'abc', b'1_0', b'=', b', ', b' ', b'\r\n', b'\n', b'utf-16', b'nope', b'123', b'encoding=',
+               b'length=', b'indent=', b'line_endings=', b'format=', b'version=', b'#.', b'#..file:\n', b'dos', b'unix',
+               b'\xff', b'\x00', b'json', b'[1]', b'{', b'999999999999999999999999', b'files=3', b'options=1',
+               b'parent_section=1', b'self=1', b'changes=1', b'meta_section=1', b'_content=1', b'content=1',
+               b'section_id=1', b'_level=1', b'subsections=1', b'base64', b'undefined', b'utf-8-sig', b'UTF-32',
+               b'#diffx: version=1.0\n', b'#.change:\n', b'#...meta: length=3\n{}\n', b'    ', b'indent=4294967295',
+               b'indent=-1', b'line_endings=5', b'encoding=5', b'mimetype=x', b'type=x', b'diff_type=text']
+MODELLED_CANON = {'ascii', 'iso8859-1', 'utf-8', 'utf-8-sig', 'utf-16', 'utf-16-le', 'utf-16-be', 'utf-32', 'utf-32-le',
+                  'utf-32-be'}
+_ENC_RE = _re.compile(rb'encoding=([^\s,]+)')
+
+
+def in_modelled_universe(data):
+    """False if the bytes mention a codec CPython can use and the model does not execute (case is discarded)."""
+    import codecs
+    for m in _ENC_RE.finditer(data):
+        try:
+            name = m.group(1).decode('ascii')
+            info = codecs.lookup(name)
+        except (LookupError, UnicodeDecodeError, ValueError):
+            continue
+        if info.name not in MODELLED_CANON:
+            return False
+    return True
+
+
+def dom_load(data):
+    """(kind, detail, closed) for DiffX.from_stream on a fresh BytesIO."""
+    import io
+    from pydiffx.dom import DiffX
+    from pydiffx.errors import BaseDiffXError
+    st = io.BytesIO(data)
+    try:
+        DiffX.from_stream(st)
+        r = ('ok', None)
+    except BaseDiffXError as e:
+        r = ('lib', type(e).__name__)
+    except Exception as e:
+        r = ('other', type(e).__name__ + ': ' + str(e)[:120])
+    return r + (st.closed,)
+
+
+class Fuzz(Family):
+    name = 'fuzz'
+    rule = ('random short byte strings, and byte-/token-/line-level corruptions (1-3 per input) of writer-produced and '
+            'foreign well-formed files biased towards option values and header/content boundaries; observation = '
+            'number of records and termination class; non-trivial = the input contains at least one well-formed header '
+            'line; distinct by input bytes')
+
+    def cases(self, tier, rng, prop_id):
+        n = 2500 if tier == 'quick' else 60000
+        bases = []
+        for i in range(40 if tier == 'quick' else 400):
+            if i % 2:
+                main, calls = gc.gen_wellformed_calls(rng, max_changes=2, max_files=2)
+                wobs, data, per = sl.run_writer(sl.S(main), sl.S('1.0'), calls)
+            else:
+                data = gf.render(gf.gen_file(rng))
+            if data:
+                bases.append(data)
+        for i in range(n):
+            if rng.random() < 0.1:
+                d = bytes(rng.choice(b'#.:=, \n\r\tdifxmetachngl019{}\x00\xff') for _ in range(rng.randint(0, 40)))
+                yield dict(kind='random', data=hx(d))
+                continue
+            d = bytearray(rng.choice(bases))
+            for _ in range(rng.randint(1, 3)):
+                k = rng.random()
+                p = rng.randrange(len(d) + 1)
+                if k < 0.3:
+                    d[p:p] = rng.choice(FUZZ_TOKENS)
+                elif k < 0.5:
+                    q = min(len(d), p + rng.randint(1, 6))
+                    d[p:q] = rng.choice(FUZZ_TOKENS)
+                elif k < 0.65:
+                    del d[p:p + rng.randint(1, 10)]
+                elif k < 0.75:
+                    d = d[:p]
+                elif k < 0.85:
+                    # corrupt an option value
+                    ms = list(_re.finditer(rb'(length|indent|encoding|line_endings|format|version|type|mimetype)=([^\s,]+)', bytes(d)))
+                    if ms:
+                        m = rng.choice(ms)
+                        d[m.start(2):m.end(2)] = rng.choice(FUZZ_TOKENS)
+                elif p < len(d):
+                    d[p] = rng.randrange(256)
+            yield dict(kind='mutated', data=hx(bytes(d)))
+        # deep JSON
+        deep = b'[' * 100000 + b']' * 100000 + b'\n'
+        yield dict(kind='deep-json', data=hx(b'#diffx: version=1.0, encoding=utf-8\n#.meta: length=%d\n' % len(deep) + deep))
+
+    def cases_filter(self, c):
+        return in_modelled_universe(unhx(c['data']))
+
+    def _impl(self, c):
+        if '_impl' not in c:
+            data = unhx(c['data'])
+            robs, records, term, orc = sl.run_reader(data)
+            c['_impl'] = (data, len(records), term, orc, dom_load(data))
+        return c['_impl']
+
+    def model_line(self, c):
+        data, n, term, orc, dom = self._impl(c)
+        if not in_modelled_universe(data) or 'UNENCODABLE' in orc:
+            return None
+        return sl.read_model_line(data, orc)
+
+    def impl_obs(self, c):
+        data, n, term, orc, dom = self._impl(c)
+        return '%d %s' % (n, term[0])
+
+    def normalize_model(self, line):
+        # "((records...) term)" -> "<n> <class>"
+        try:
+            p = lib.parse_sx(line)
+            t = p[1]
+            cls = t if isinstance(t, str) else t[0]
+            return '%d %s' % (len(p[0]), cls)
+        except Exception:
+            return line[:200]
+
+    def nontrivial(self, c):
+        return _re.search(rb'^#\.{0,3}[a-z]+:', unhx(c['data']), _re.M) is not None
+
+    def bucket(self, c):
+        data, n, term, orc, dom = self._impl(c)
+        return '%s/%s/dom-%s' % (c['kind'], term[0], dom[0])
+
+    def oracle(self, c, obs):
+        data, n, term, orc, dom = self._impl(c)
+        out = []
+        if term[0] == 'exc':
+            out.append(('C08', 'reader-other-exception', 'iterating the reader raised %s: %s' % (term[1], term[2])))
+        elif term[0] == 'parse':
+            nlines = data.count(b'\n') + 1
+            if not (isinstance(term[1], int) and 0 <= term[1] < nlines):
+                out.append(('C08', 'linenum-outside-input', 'linenum %r for an input of %d lines' % (term[1], nlines)))
+            want = 'Error on line %d' % (term[1] + 1) if isinstance(term[1], int) else None
+            if term[2] is not None:
+                want = '%s, column %d' % (want, term[2] + 1)
+            if want is None or not term[3].startswith(want + ': '):
+                out.append(('C08', 'message-attributes-disagree', 'message %r vs linenum=%r column=%r' % (term[3][:60], term[1], term[2])))
+        if dom[0] == 'other':
+            out.append(('C08', 'dom-other-exception', 'DiffX.from_stream raised %s' % dom[1]))
+        if not dom[2]:
+            out.append(('C08', 'stream-not-closed', 'the stream handed to from_stream was left open'))
+        return out
